@@ -1,6 +1,8 @@
 package checks
 
 import (
+	"fmt"
+
 	"verif/internal/ev"
 	"verif/internal/imp"
 )
@@ -14,7 +16,14 @@ func c06Family(name, local string, ctors []string, near []string) *family {
 	for _, p := range near {
 		names[p] = "c"
 	}
-	return &family{name: name, ctors: ctors, local: local, paths: paths, names: names,
+	// a gennames-sized table (70 entries) that also names the paths of this family
+	big := append([]string{}, paths...)
+	for i := 0; len(big) < 70; i++ {
+		p := fmt.Sprintf("u/tbl%d", i)
+		big = append(big, p)
+		names[p] = fmt.Sprintf("tbl%d", i)
+	}
+	return &family{name: name, ctors: ctors, local: local, paths: paths, names: names, bigHints: big,
 		aliases: []string{".", "c"}, prefixes: []string{"pkg"}, maxRefs: 3, freeRefs: 2,
 		wrappers: []int{0, imp.WrapperIndex("dictkey"), imp.WrapperIndex("caseblock")}, anon: true, extra: true, last: true, doubles: true}
 }
@@ -40,13 +49,14 @@ var c06Check = &impCheck{
 		c06Family("path", "a.b/c", []string{"NewFilePath", "NewFilePathName"}, []string{"a.b/c/", "a.b/c/x", "x/a.b/c", "a.b/C", "b/c", "c"}),
 		c06Family("single", "c", []string{"NewFilePathName", "NewFilePath"}, []string{"c/", "a/c", "C1", "c/c"}),
 		c06Family("slash", "x/y/c/", []string{"NewFilePath", "NewFilePathName"}, []string{"x/y/c", "x/y/c//", "y/c/"}),
+		c06Family("version", "x/foo/v2", []string{"NewFilePath", "NewFilePathName"}, []string{"x/foo", "x/foo/v3", "x/foo/v2/sub", "foo/v2"}),
 	},
 }
 
 func init() {
 	register(&Check{ID: "C06", Level: "model_checking", Run: func(r *ev.Recorder) {
 		r.Rule = "(1) explicit-state BFS over one real File created with NewFilePath(\"a.b/c\"): references (plain and as Dict key) to the local path, a near miss and three other paths, ImportName, ImportAlias(p, \".\"), ImportAlias(p, d1) and Anon(p) for every path, PackagePrefix, in every order up to the depth bound. " +
-			"(2) canonical pre-render histories for 3 local-path families (local path a.b/c, c, x/y/c/; near misses: trailing slash, prefix, suffix, case, last element only) via NewFilePath and NewFilePathName: every reference sequence, every subset of paths declared dot-imports (last hint wins; double hints and hints after the references included), prefix on/off, within the deviation bound. " +
+			"(2) canonical pre-render histories for 4 local-path families (local path a.b/c, c, x/y/c/, x/foo/v2; optionally after a 70-entry ImportNames table that names the same paths; near misses: trailing slash, prefix, suffix, case, last element only) via NewFilePath and NewFilePathName: every reference sequence, every subset of paths declared dot-imports (last hint wins; double hints and hints after the references included), prefix on/off, within the deviation bound. " +
 			"Oracle on the parsed output: a reference to the local path is a bare identifier and no spec imports it; a reference to a path whose last hint is ImportAlias(p, \".\") is bare and exactly one spec `. \"p\"` exists; every other reference is qualified and its path imported under a name; go/types resolves every identifier (bare ones through the fabricated dot-imported package). " +
 			"distinct_nontrivial = distinct outputs containing at least one bare reference"
 		r.Assume = []string{"the dot-import status of a path is decided by the last hint given before the (single) render; hints given after a render are C08's subject", "histories beyond the depth / deviation bounds are outside the bound"}
